@@ -600,10 +600,215 @@ def p_cfheader_chain(prev, hashes):
     return None
 
 
+# ---------------------------------------------------------------- one object used repeatedly (stale state)
+# SipHash_2_4, CompactFilter, CFilterMessage and BloomFilter objects are kept alive and asked again and again
+# (update/hash/copy in any order; membership queries in different orders; add / filter_bytes / filterload
+# interleaved), their public fields are edited in place, several objects are used alternately; every answer is
+# compared with the independent references above evaluated on the CURRENT state.  Module-level hash functions are
+# called in sequences with different keys / seeds / ranges (a cache keyed too coarsely).
+
+def p_reuse_siphash(keys, seed, nops):
+    import random
+    r = random.Random(seed)
+    objs = []          # [object, key, message so far]
+    for k in keys:
+        first = bytes(r.getrandbits(8) for _ in range(r.choice([0, 0, 3, 8, 13])))
+        objs.append([siphash.SipHash_2_4(k, first) if first or r.random() < 0.5 else siphash.SipHash_2_4(k), k, first])
+    for step in range(nops):
+        i = r.randrange(len(objs))
+        o, key, msg = objs[i]
+        q = r.random()
+        where = f"step {step} (object {i}, {len(msg)} bytes so far)"
+        if q < 0.35:
+            c = bytes(r.getrandbits(8) for _ in range(r.choice([0, 1, 1, 2, 7, 8, 9, 15, 16, 17, r.randrange(0, 40)])))
+            if o.update(c) is not o:
+                return f"{where}: update() does not return the object"
+            objs[i][2] = msg + c
+        elif q < 0.7:
+            want = ref_siphash24(key, msg)
+            got = o.hash()
+            if got != want:
+                return f"{where}: hash() of the reused SipHash object = {got:#x}, SipHash-2-4 of everything fed so far = {want:#x}"
+            if r.random() < 0.5 and (o.hash() != want or o.digest() != struct.pack("<Q", want)
+                                     or o.hexdigest() != struct.pack("<Q", want).hex().encode()):
+                return f"{where}: a second hash()/digest()/hexdigest() differs from the first"
+        elif q < 0.85:
+            c = o.copy()
+            if c.hash() != ref_siphash24(key, msg):
+                return f"{where}: copy().hash() differs from SipHash-2-4 of everything fed so far"
+            if r.random() < 0.5:
+                objs.append([c, key, msg])            # both live on and diverge
+            else:
+                extra = bytes(r.getrandbits(8) for _ in range(r.randrange(1, 20)))
+                c.update(extra)
+                if c.hash() != ref_siphash24(key, msg + extra) or o.hash() != ref_siphash24(key, msg):
+                    return f"{where}: updating a copy changed the original (or the copy is wrong)"
+        else:
+            fresh = siphash.SipHash_2_4(key, msg)
+            if fresh.hash() != o.hash() or compactfilter._siphash(key, msg) != ref_siphash24(key, msg):
+                return f"{where}: a fresh object over the same bytes gives another hash"
+    return None
+
+
+def p_hash_order(seq):
+    """_siphash / hash_to_range / hashed_items called in the given order with different keys, values and ranges"""
+    for n, (key, value, f) in enumerate(seq):
+        h = ref_siphash24(key, value)
+        if compactfilter._siphash(key, value) != h:
+            return f"call {n}: _siphash differs from SipHash-2-4"
+        if compactfilter.hash_to_range(key, value, f) != (h * f) >> 64:
+            return f"call {n}: hash_to_range differs from (siphash * F) >> 64"
+        if n % 4 == 3:
+            items = [v for _, v, _ in seq[n - 3: n + 1]]
+            if compactfilter.hashed_items(key, list(items)) != ref_hashed(key, items):
+                return f"call {n}: hashed_items differs from the sorted range-mapped hashes"
+            if compactfilter.encode_gcs(key, list(items)) != ref_bip158(key, items):
+                return f"call {n}: encode_gcs differs from the BIP158 construction"
+    return None
+
+
+def p_reuse_cf(filters, probes, altkeys, seed, nops):
+    """several CompactFilter objects (and a CFilterMessage) alive together: membership asked in different orders and
+    repeatedly, serialize()/hash() in between, the public fields key / f / hashes / items edited in place"""
+    import random
+    r = random.Random(seed)
+    cfs, sets = [], []
+    for key, items in filters:
+        raw = compactfilter.encode_gcs(key, list(items))
+        if r.random() < 0.5:
+            cfs.append(compactfilter.CompactFilter.parse(key, raw))
+        else:
+            cfs.append(compactfilter.CFilterMessage(0, bytes(16) + key[::-1], raw).cf)
+        sets.append(list(items))
+    msgs = [compactfilter.CFilterMessage(0, bytes(16) + key[::-1], compactfilter.encode_gcs(key, list(items)))
+            for key, items in filters[:1]]
+    last = None
+    for step in range(nops):
+        i = r.randrange(len(cfs))
+        cf = cfs[i]
+        q = r.random()
+        where = f"step {step} (filter {i})"
+        if q < 0.7:
+            if last is not None and r.random() < 0.2:
+                i, raw = last
+                cf = cfs[i]
+            else:
+                pool = sets[i] + list(probes) + sets[(i + 1) % len(sets)]
+                raw = r.choice(pool) if pool else b""
+            last = (i, raw)
+            want = ((ref_siphash24(cf.key, raw) * cf.f) >> 64) in set(cf.hashes)
+            got = RawScript(raw) in cf
+            if got != want:
+                return (f"{where}: membership of {raw.hex()[:24]}.. on the reused filter is {got}; its range-mapped "
+                        f"SipHash under the filter's current key and F is {'in' if want else 'not in'} its current set")
+            if cf.compute_hash(raw) != (ref_siphash24(cf.key, raw) * cf.f) >> 64:
+                return f"{where}: compute_hash differs from (siphash(key, e) * F) >> 64 for the current key and F"
+            if i == 0 and cf.key == filters[0][0] and cf.f == len(filters[0][1]) * M and raw in sets[0] and not got:
+                return f"{where}: false negative on the reused filter"
+            if i == 0 and raw in sets[0] and RawScript(raw) not in msgs[0]:
+                return f"{where}: false negative on the reused CFilterMessage"
+        elif q < 0.8:
+            want = ref_gcs_from_values(sorted(cf.items))
+            if cf.serialize() != want or cf.hash() != helper.hash256(want):
+                return f"{where}: serialize()/hash() of the reused filter differ from the BIP158 coding of its current values"
+        else:
+            e = r.randrange(5)
+            if e == 0 and altkeys:
+                cf.key = r.choice(altkeys)
+            elif e == 1:
+                cf.key = filters[i][0]
+                cf.f = len(filters[i][1]) * M
+            elif e == 2:
+                cf.f = r.choice([M, 2 * M, max(1, len(cf.items)) * M, 1])
+            elif e == 3 and probes:
+                v = (ref_siphash24(cf.key, r.choice(probes)) * cf.f) >> 64
+                cf.hashes.add(v)
+                cf.items = sorted(list(cf.items) + [v])
+            elif cf.hashes:
+                v = r.choice(sorted(cf.hashes))
+                cf.hashes.discard(v)
+                cf.items = [x for x in cf.items if x != v]
+    return None
+
+
+def p_reuse_bloom(cfgs, items, seed, nops):
+    """BloomFilter objects used alternately: add / filter_bytes / filterload interleaved and repeated, the public
+    fields tweak, function_count and bit_field edited in place between the calls"""
+    import random
+    r = random.Random(seed)
+    objs = []
+    for size, fc, tweak in cfgs:
+        objs.append([bloomfilter.BloomFilter(size, fc, tweak), [0] * (size * 8)])
+    for step in range(nops):
+        i = r.randrange(len(objs))
+        bf, want = objs[i]
+        where = f"step {step} (filter {i}: {bf.size} bytes, {bf.function_count} functions, tweak {bf.tweak})"
+        q = r.random()
+        if q < 0.4:
+            it = r.choice(items)
+            bf.add(it)
+            for bit in ref_bloom_bits(bf.size, bf.function_count, bf.tweak, it):
+                want[bit] = 1
+            if bf.bit_field != want:
+                return f"{where}: after add() the bits differ from murmur3(seed = i*0xFBA4C795 + tweak) mod (size*8) accumulated so far"
+        elif q < 0.65:
+            exp = bytes(sum(want[8 * k + j] << j for j in range(8)) for k in range(bf.size))
+            if bf.filter_bytes() != exp or (r.random() < 0.3 and bf.filter_bytes() != exp):
+                return f"{where}: filter_bytes() of the reused filter is not the packing of the bits set so far"
+        elif q < 0.8:
+            flag = r.choice([0, 1, 2, 255])
+            exp = bytes(sum(want[8 * k + j] << j for j in range(8)) for k in range(bf.size))
+            m = bf.filterload(flag)
+            if m.command != b"filterload" or m.serialize() != ref_varint(bf.size) + exp + \
+                    struct.pack("<II", bf.function_count, bf.tweak) + bytes([flag]):
+                return f"{where}: filterload({flag}) of the reused filter differs from the BIP37 layout of its current state"
+        else:
+            e = r.randrange(4)
+            if e == 0:
+                bf.tweak = r.choice([0, 1, 2 ** 32 - 1, r.getrandbits(32)])
+            elif e == 1:
+                bf.function_count = r.randrange(1, 12)
+            elif e == 2:
+                k = r.randrange(len(want))
+                bf.bit_field[k] = want[k] = 0
+            else:
+                bf.bit_field = [0] * (bf.size * 8)
+                objs[i][1] = [0] * (bf.size * 8)
+    for bf, want in objs:
+        if bf.bit_field != want:
+            return "end: bit field differs"
+    return None
+
+
+def p_murmur_order(seq):
+    for n, (data, sd) in enumerate(seq):
+        d = p_murmur_ref(data, sd)
+        if d:
+            return f"call {n}: " + d
+    return None
+
+
+def p_golomb_order(seq):
+    """encode/decode_golomb, pack/unpack_bits, serialize/decode_gcs called in the given order with different (x, p)"""
+    vals = []
+    for n, (x, p) in enumerate(seq):
+        d = p_golomb_rt(x, p, bytes([n % 2, 1, 0]))
+        if d:
+            return f"call {n}: " + d
+        if p == P:
+            vals.append(x)
+            d = p_gcs_rt(vals[-6:])
+            if d:
+                return f"call {n}: " + d
+    return None
+
+
 PROPS = {"cf_reserialize": p_cf_reserialize, "golomb_rt": p_golomb_rt, "pack_unpack": p_pack_unpack, "unpack_pack": p_unpack_pack, "gcs_rt": p_gcs_rt,
          "cf_members": p_cf_members, "siphash_vector": p_siphash_vector, "siphash_ref": p_siphash_ref,
          "sipround": p_sipround, "murmur_vector": p_murmur_vector, "murmur_ref": p_murmur_ref, "bloom": p_bloom,
-         "bloom_vectors": p_bloom_vectors, "bip158_vector": p_bip158_vector, "cfheader_chain": p_cfheader_chain}
+         "bloom_vectors": p_bloom_vectors, "bip158_vector": p_bip158_vector, "cfheader_chain": p_cfheader_chain,
+         "reuse_siphash": p_reuse_siphash, "hash_order": p_hash_order, "reuse_cf": p_reuse_cf,
+         "reuse_bloom": p_reuse_bloom, "murmur_order": p_murmur_order, "golomb_order": p_golomb_order}
 
 # ---------------------------------------------------------------- generators
 
@@ -899,3 +1104,46 @@ def generate(ctx):
         hs = [ctx.rbytes(32) for _ in range(n)]
         yield ("prop", "cfheader_chain", [prev, hs])
         yield ("corr", "cfheader_chain", [prev, hs])
+
+    # ---- one object used repeatedly: stale memoised state, coarse module-level caches
+    for _ in range(ctx.n(20, 300)):
+        k1 = ctx.rbytes(16)
+        keys = [k1, ctx.rbytes(16), k1[:15] + bytes([k1[15] ^ 1])][: r.randrange(1, 4)]
+        ctx.label("reuse/siphash-object")
+        yield ("prop", "reuse_siphash", [keys, r.getrandbits(30), ctx.n(60, 120)])
+    for _ in range(ctx.n(20, 300)):
+        k1, k2 = ctx.rbytes(16), ctx.rbytes(16)
+        vals = [rscript(ctx, r) for _ in range(4)]
+        seq = [[r.choice([k1, k2, k1[:8] + k2[8:]]), r.choice(vals + [ctx.rbytes(r.randrange(0, 30))]),
+                r.choice([M, 2 * M, 5 * M, 1, 0, 2 ** 64])] for _ in range(24)]
+        ctx.label("reuse/siphash-call-order")
+        yield ("prop", "hash_order", [seq])
+    for _ in range(ctx.n(20, 300)):
+        shared = [rscript(ctx, r) for _ in range(r.randrange(1, 6))]
+        filters = []
+        for _j in range(r.randrange(1, 4)):
+            items = list(shared) + [rscript(ctx, r) for _ in range(r.randrange(0, 12))]
+            if r.random() < 0.3:
+                items.append(items[0])
+            r.shuffle(items)
+            filters.append([ctx.rbytes(16), items])
+        probes = [rscript(ctx, r) for _ in range(6)]
+        ctx.label("reuse/compact-filter")
+        yield ("prop", "reuse_cf", [filters, probes, [ctx.rbytes(16), filters[-1][0]], r.getrandbits(30), ctx.n(80, 160)])
+    for _ in range(ctx.n(20, 300)):
+        cfgs = [[r.choice([1, 2, 3, 10, 33, r.randrange(1, 200)]), r.randrange(1, 12), r.choice([0, 99, 2 ** 32 - 1, r.getrandbits(32)])]
+                for _j in range(r.randrange(1, 4))]
+        items = [r.choice([ctx.rbytes(20), ctx.rbytes(32), rscript(ctx, r), b""]) for _j in range(6)]
+        ctx.label("reuse/bloom-filter")
+        yield ("prop", "reuse_bloom", [cfgs, items, r.getrandbits(30), ctx.n(60, 120)])
+    for _ in range(ctx.n(10, 200)):
+        datas = [ctx.rbytes(r.randrange(0, 40)) for _j in range(4)]
+        seq = [[r.choice(datas), r.choice([0, 1, 0xfba4c795, 2 * 0xfba4c795 & 0xffffffff, r.getrandbits(32), 2 ** 32, 2 ** 32 + 1])]
+               for _j in range(40)]
+        ctx.label("reuse/murmur-call-order")
+        yield ("prop", "murmur_order", [seq])
+    for _ in range(ctx.n(10, 200)):
+        xs = [r.randrange(0, 2 ** 22) for _j in range(4)]
+        seq = [[r.choice(xs), r.choice([P, P, 0, 1, 5, 20])] for _j in range(30)]
+        ctx.label("reuse/golomb-call-order")
+        yield ("prop", "golomb_order", [seq])
